@@ -3,7 +3,9 @@ package atroll
 import (
 	"fmt"
 	"math"
+	"strconv"
 	"strings"
+	"time"
 
 	"verifh/atrun"
 	"verifh/hutil"
@@ -78,18 +80,8 @@ func genTable(r *hutil.Rng, name string) *Table {
 	n := 1 + r.Intn(5)
 	for i := 0; i < n; i++ {
 		c := Col{Name: fmt.Sprintf("c%d", i+1)}
-		switch r.Intn(6) {
-		case 0:
-			c.Typ = "INT"
-		case 1:
-			c.Typ = "BIGINT"
-		case 2:
-			c.Typ = "DOUBLE"
-		case 3:
-			c.Typ = "TINYINT"
-		default:
-			c.Typ = "VARCHAR"
-		}
+		c.Typ = []string{"INT", "BIGINT", "DOUBLE", "TINYINT", "VARCHAR", "VARCHAR", "DECIMAL", "DATETIME", "DATE", "TIMESTAMP",
+			"CHAR", "TEXT", "VARBINARY", "BLOB", "FLOAT", "INT", "VARCHAR", "BIGINT"}[r.Intn(18)]
 		c.Nullable = r.Chance(1, 2)
 		t.Cols = append(t.Cols, c)
 	}
@@ -106,7 +98,27 @@ func genVal(r *hutil.Rng, c Col) Val {
 	if c.Nullable && r.Chance(1, 5) {
 		return vNull()
 	}
+	base := time.Date(2024, 2, 28, 23, 59, 59, 0, time.UTC)
 	switch c.Typ {
+	case "DECIMAL":
+		return vDec(float64(r.Intn(200000)-50000) / 100)
+	case "DATETIME":
+		return vTime(base.Add(time.Duration(r.Intn(200000))*time.Second + time.Duration(r.Intn(1000000))*time.Microsecond))
+	case "TIMESTAMP":
+		return vTime(base.Add(time.Duration(r.Intn(200000))*time.Second + time.Duration(r.Intn(1000))*time.Millisecond))
+	case "DATE":
+		return vTime(time.Date(2024, 2, 27+r.Intn(5), 0, 0, 0, 0, time.UTC))
+	case "VARBINARY", "BLOB":
+		n := 1 + r.Intn(6)
+		b := make([]byte, n)
+		for i := range b {
+			b[i] = []byte{0x00, 0xff, 0x80, 0x27, 0x5c, 0x41, 0x0a, 0x7f}[r.Intn(8)]
+		}
+		return vBytes(b)
+	case "FLOAT":
+		return vFloat(float64(float32(float64(r.Intn(4000)-1000) / 8)))
+	case "CHAR", "TEXT":
+		return vStr(names[r.Intn(len(names))] + fmt.Sprint(r.Intn(10)))
 	case "VARCHAR":
 		if r.Chance(1, 6) {
 			return vStr([]string{"ann1 ", "Ann1", "a_b", "x_##$$_y", "p,q;r:s", ""}[r.Intn(6)])
@@ -134,6 +146,14 @@ func nearVal(r *hutil.Rng, c Col, v Val) (Val, bool) {
 			return vFloat(math.Nextafter(f, math.Inf(1))), true
 		}
 		return vFloat(math.Nextafter(f, math.Inf(-1))), true
+	case v.K == "dec":
+		f, _ := strconv.ParseFloat(v.V, 64)
+		return vDec(f + 0.01), true
+	case v.K == "time" && c.Typ == "DATETIME":
+		t, _ := parseTimeAny(v.V)
+		return vTime(t.Add(time.Microsecond)), true
+	case v.K == "bytes":
+		return Val{K: "bytes", V: v.V + "00"}, len(v.V) < 30
 	case v.K == "int" && c.Typ == "BIGINT":
 		return vInt(v.int() + int64(1-2*r.Intn(2))), true
 	case v.K == "str" && v.V != "":
@@ -189,7 +209,7 @@ func insertSQL(t *Table, rows []Row, params bool, withKey bool) (string, []atrun
 		vs = append(vs, r.Vals...)
 		var items []string
 		for _, v := range vs {
-			if params {
+			if params && v.bindable() {
 				items = append(items, "?")
 				args = append(args, v.arg())
 			} else {
@@ -354,7 +374,7 @@ func (g *genCtx) genStmt(t *Table, own func(i int) bool, explicit bool) Stmt {
 				v = rows[r.Intn(len(rows))].Vals[ci] // what some (perhaps matched) row already holds: that part of the image is unchanged
 			}
 			s.Set = append(s.Set, SetItem{Col: ci, Op: "val", V: v})
-			if r.Chance(1, 2) || v.K == "null" {
+			if r.Chance(1, 2) || v.K == "null" || !v.bindable() {
 				sets = append(sets, c.Name+" = "+v.lit())
 			} else {
 				sets = append(sets, c.Name+" = ?")
